@@ -28,10 +28,12 @@ Definition rinit (g : strcfg) : rstate :=
   {| alive := false; obj_cfg := g; obj_queue := true; cb := None; pending := None; gw_cfg := g |}.
 
 (* ChannelFactory.new(id): a new object starts with the remembered setting, else with the setting of the callback
-   registration the channel lives on through, else with the gateway's *)
+   registration the channel lives on through, else with the gateway's; the object of a channel that has a callback has no queue
+   (items keep going to the callback; dropping it says LAST_MESSAGE, not CLOSE) *)
 Definition r_new (s : rstate) : rstate :=
   if alive s then s
-  else {| alive := true; obj_cfg := match pending s with Some c => c | None => match cb s with Some c => c | None => gw_cfg s end end; obj_queue := true;
+  else {| alive := true; obj_cfg := match pending s with Some c => c | None => match cb s with Some c => c | None => gw_cfg s end end;
+          obj_queue := match cb s with Some _ => false | None => true end;
           cb := cb s; pending := None; gw_cfg := gw_cfg s |}.
 
 (* Channel.__del__ of an open channel: LAST_MESSAGE when the object has a callback (no queue), else CLOSE *)
